@@ -65,6 +65,123 @@ def state(loader):
 
 TASKS = [StructTask("worker", worker, textual=True), StructTask("driver", driver, textual=True), StructTask("no-module-state", state)]
 
+# ---------------------------------------------------------------------------------------------------------------------
+# _process_hvsr under contract (the same facts as the textual obligations above, but decided on the executed body): the stages are opaque functions; what
+# is proved is the data flow - the file written is WRITE(PROCESS(PREPROCESS(READ([[fname]]), copy of the preprocessing settings), copy of the processing
+# settings)) under the name <stem>.csv with the caller's two distribution options, and neither settings object handed in reaches a stage.
+import z3
+from pyvc.core import I, R, B, FuncV, ModV, DictV, StrV, Tup, NONE, ORef, LRef, lit
+from pyvc.contract import Contract, FunctionTask, sym_obj
+
+READF = z3.Function("READ", I, I)                 # file name id -> list of recordings (id)
+PREF = z3.Function("PREPROCESS", I, I, I)         # (recordings id, settings content id) -> windows id
+PROCF = z3.Function("PROCESS", I, I, I)           # (windows id, settings content id) -> result id
+CONTENT = z3.Function("settings_content", I, I)   # settings object id -> its content (deepcopy preserves it)
+STEMCSV = z3.Function("stem_dot_csv", I, I)       # file name id -> "<stem>.csv" (id)
+FNAME = z3.Int("fname_id")
+DMC, DFN = z3.Ints("distribution_mc distribution_fn")
+
+
+class _Val(StrV):
+    """an opaque value with an identity (file names, recordings, results)"""
+
+    def __init__(self, vid, what="<value>"):
+        super().__init__(what)
+        self.vid = vid
+
+
+def _cli_inputs(no_figure, no_file):
+    def mk(ex, st):
+        st.env["fname"] = _Val(FNAME, "<fname>")
+        st.env["preprocessing_settings"] = sym_obj(ex, st, "Settings", {"content": z3.Int("pre_content"), "is_copy": z3.BoolVal(False)}, owner="param:preprocessing_settings")
+        st.env["processing_settings"] = sym_obj(ex, st, "Settings", {"content": z3.Int("proc_content"), "is_copy": z3.BoolVal(False)}, owner="param:processing_settings")
+        st.env["settings"] = DictV({"no_figure": z3.BoolVal(no_figure), "no_file": z3.BoolVal(no_file), "distribution_mc": DMC, "distribution_fn": DFN, "ymax": z3.Real("ymax")},
+                                   owner="param:settings")
+        st.env["__written"] = NONE
+        return []
+    return mk
+
+
+def _m_deepcopy_obj(ex, st, args, kw, node):
+    o = st.heap[args[0].oid]
+    return ex.alloc_obj(st, o.cls, {"content": o.fields["content"], "is_copy": z3.BoolVal(True)}, "fresh")
+
+
+def _own_copy(ex, st, o, node, what):
+    ex.add_obl(f"call-pre[{what}:own-copy-of-the-settings@{node.lineno}]", "call-pre", st, st.heap[o.oid].fields["is_copy"], node.lineno,
+               f"{what} receives the task's own deep copy of the settings, not the object shared by the tasks of a chunk")
+    return st.heap[o.oid].fields["content"]
+
+
+def _m_read(ex, st, args, kw, node):
+    outer = st.heap[args[0].sid].items
+    inner = st.heap[outer[0].sid].items if len(outer) == 1 and isinstance(outer[0], LRef) else None
+    if inner is None or len(inner) != 1 or not isinstance(inner[0], _Val) or kw:
+        raise Undecided("hvsrpy.read is handed something other than [[fname]]")
+    return _Val(READF(inner[0].vid), "<recordings>")
+
+
+from pyvc.core import Undecided
+_HV = ModV("hvsrpy", {
+    "read": FuncV(_m_read, "hvsrpy.read"),
+    "preprocess": FuncV(lambda ex, st, a, k, n_: _Val(PREF(a[0].vid, _own_copy(ex, st, a[1], n_, "preprocess")), "<windows>"), "hvsrpy.preprocess"),
+    "process": FuncV(lambda ex, st, a, k, n_: _Val(PROCF(a[0].vid, _own_copy(ex, st, a[1], n_, "process")), "<result>"), "hvsrpy.process"),
+    "write_hvsr_object_to_file": FuncV(lambda ex, st, a, k, n_: (st.env.__setitem__("__written", Tup((a[0], a[1], k.get("distribution_mc", NONE), k.get("distribution_fn", NONE)))), NONE)[1],
+                                       "hvsrpy.write_hvsr_object_to_file"),
+    "HVSRPY_MPL_STYLE": StrV("<style>"),
+})
+
+
+class _Stem(StrV):
+    pass
+
+
+def _m_path(ex, st, args, kw, node):
+    return ModV("Path", {"stem": _Val(args[0].vid, "<stem>")})
+
+
+def _fstring_csv(ex, st, e):
+    """f"{pathlib.Path(fname).stem}.csv" - the only f-string whose value matters: the stem of the file name followed by '.csv'"""
+    import ast as _ast
+    if len(e.values) == 2 and isinstance(e.values[0], _ast.FormattedValue) and isinstance(e.values[1], _ast.Constant) and e.values[1].value == ".csv":
+        v = ex.ev(e.values[0].value, st)
+        if isinstance(v, _Val) and v.s == "<stem>":
+            return _Val(STEMCSV(v.vid), "<stem>.csv")
+    return StrV("<fstring>")
+
+
+_CLI_ENV = {"deepcopy": FuncV(_m_deepcopy_obj, "deepcopy"), "hvsrpy": _HV, "pathlib": ModV("pathlib", {"Path": FuncV(_m_path, "pathlib.Path")}),
+            "time": ModV("time", {"perf_counter": FuncV(lambda ex, st, a, k, n_: ex.fresh("t", R), "time.perf_counter")}),
+            "print": FuncV(lambda ex, st, a, k, n_: NONE, "print")}
+
+
+def _written(ex, st, a, k, n_):
+    w = st.env["__written"]
+    if not isinstance(w, Tup):
+        return z3.BoolVal(False)
+    h, name, mc, fn = w
+    ok = isinstance(h, _Val) and isinstance(name, _Val) and name.s == "<stem>.csv"
+    if not ok:
+        return z3.BoolVal(False)
+    pre, proc = (st.heap[st.env[x].oid].fields["content"] for x in ("preprocessing_settings", "processing_settings"))
+    pre0, proc0 = z3.Int("pre_content"), z3.Int("proc_content")
+    return z3.And(h.vid == PROCF(PREF(READF(FNAME), pre0), proc0), name.vid == STEMCSV(FNAME), lit(mc) == DMC, lit(fn) == DFN)
+
+
+WORKER = Contract(qual="hvsrpy.cli._process_hvsr", params=["fname", "preprocessing_settings", "processing_settings", "settings"],
+                  ghost={"written": FuncV(_written, "written")}, make_inputs=_cli_inputs(True, False), ensures=["written()"], modifies=[],
+                  notes="--no_figure: the file <stem>.csv receives PROCESS(PREPROCESS(READ([[fname]]), own copy of the preprocessing settings), own copy of the processing settings) "
+                        "with the caller's distribution options; the settings objects handed in are neither passed on nor written")
+WORKER.ghost_state = ("__written",)
+WORKER.fstring_model = _fstring_csv
+TASKS.append(FunctionTask(WORKER, module_env=_CLI_ENV, label="hvsrpy.cli._process_hvsr[--no_figure]", clauses=["each file's output is the library pipeline for that file with its own settings copies"]))
+NOTHING = Contract(qual="hvsrpy.cli._process_hvsr", params=["fname", "preprocessing_settings", "processing_settings", "settings"],
+                   ghost={"nothing_written": FuncV(lambda ex, st, a, k, n_: z3.BoolVal(st.env["__written"] is NONE), "nothing_written")},
+                   make_inputs=_cli_inputs(True, True), ensures=["nothing_written()"], modifies=[])
+NOTHING.ghost_state = ("__written",)
+NOTHING.fstring_model = _fstring_csv
+TASKS.append(FunctionTask(NOTHING, module_env=_CLI_ENV, label="hvsrpy.cli._process_hvsr[--no_figure --no_file]", clauses=["--no_file writes nothing"]))
+
 META = dict(
     level="other",
     explanation="structural obligations: the worker deep-copies both settings objects before first use, reads only its own file, runs read -> preprocess -> "
